@@ -27,6 +27,7 @@ type (
 		mu              sync.Mutex
 		f               http.Flusher
 		keepAliveTicker *time.Ticker
+		closed          bool
 	}
 )
 
@@ -98,8 +99,7 @@ func (t SSE) Do(w http.ResponseWriter, r *http.Request, exec graphql.GraphExecut
 	c.ctx = ctx
 
 	w.Header().Set("Content-Type", "text/event-stream")
-	fmt.Fprint(w, ":\n\n")
-	c.flush()
+	c.write(func() { fmt.Fprint(w, ":\n\n") })
 
 	if t.KeepAlivePingInterval > 0 {
 		c.mu.Lock()
@@ -108,10 +108,13 @@ func (t SSE) Do(w http.ResponseWriter, r *http.Request, exec graphql.GraphExecut
 
 		go c.keepAlive(w)
 	}
+	// once Do returns, net/http recycles the ResponseWriter: the keep-alive
+	// goroutine must not write to it any more
+	defer c.close()
 
 	if opErr != nil {
 		resp := exec.DispatchError(ctx, opErr)
-		writeJsonWithSSE(w, resp)
+		c.write(func() { writeJsonWithSSE(w, resp) })
 	} else {
 		responses, ctx := exec.DispatchOperation(ctx, rc)
 		for {
@@ -119,14 +122,42 @@ func (t SSE) Do(w http.ResponseWriter, r *http.Request, exec graphql.GraphExecut
 			if response == nil {
 				break
 			}
-			writeJsonWithSSE(w, response)
-			c.flush()
+			c.write(func() { writeJsonWithSSE(w, response) })
 
 			c.resetTicker(t.KeepAlivePingInterval)
 		}
 	}
 
-	fmt.Fprint(w, "event: complete\n\n")
+	// `complete` is the last thing on the wire: close in the same critical section
+	c.mu.Lock()
+	if !c.closed {
+		fmt.Fprint(w, "event: complete\n\n")
+		c.f.Flush()
+		c.closed = true
+	}
+	c.mu.Unlock()
+}
+
+// write performs one write to the ResponseWriter and flushes it, under the
+// lock every writer of this connection takes, so events and keep-alive pings
+// never interleave; nothing is written once the connection is closed.
+func (c *sseConnection) write(fn func()) {
+	c.mu.Lock()
+	defer c.mu.Unlock()
+	if c.closed {
+		return
+	}
+	fn()
+	c.f.Flush()
+}
+
+func (c *sseConnection) close() {
+	c.mu.Lock()
+	defer c.mu.Unlock()
+	c.closed = true
+	if c.keepAliveTicker != nil {
+		c.keepAliveTicker.Stop()
+	}
 }
 
 func (c *sseConnection) resetTicker(interval time.Duration) {
@@ -144,16 +175,15 @@ func (c *sseConnection) keepAlive(w io.Writer) {
 			c.keepAliveTicker.Stop()
 			return
 		case <-c.keepAliveTicker.C:
-			fmt.Fprintf(w, ": ping\n\n")
-			c.flush()
+			c.write(func() { fmt.Fprintf(w, ": ping\n\n") })
 		}
 	}
 }
 
 func (c *sseConnection) flush() {
 	c.mu.Lock()
+	defer c.mu.Unlock()
 	c.f.Flush()
-	c.mu.Unlock()
 }
 
 func writeJsonWithSSE(w io.Writer, response *graphql.Response) {
